@@ -1,5 +1,9 @@
 import CoapVerif.Lemmas.Block
 import CoapVerif.Lemmas.BlockRecv
+import CoapVerif.Lemmas.BlockCrcv
+import CoapVerif.Lemmas.BlockXmit
+import CoapVerif.Lemmas.BlockRtag
+import CoapVerif.Lemmas.BlockNet
 /-
 C09 — block-wise transfer: the sender's body arrives intact, once, or the transfer fails explicitly.
 
@@ -135,12 +139,14 @@ theorem setup_payload_fits (maxSize tokOpts num blk total : Nat) (b : BlockB)
 /-! ## Layer B, receiver side (COAP_BLOCK_SINGLE_BODY Block1 receive path of coap_handle_request_put_block)
 
 Full statements that are NOT proved (kept here as the target):
-  never_wrong_body            — for the composed system client ∘ network ∘ server under every schedule, anything a
+  never_wrong_body            — for the real composed system client ∘ network ∘ server under every schedule, anything a
                                 handler receives is the sender's body / its slices (Block1 and Block2, both modes).
   at_most_once_per_transfer   — at most one delivery per transfer under every schedule.
-What is proved below is the receiver automaton `srcvStep` alone (transcribed from the C, tied by the `srcv`/`srcv2` ops):
-the sender side (lg_xmit, retransmission, token substitution), the client's Block2 receive path
-(coap_handle_response_get_block), per-block mode, Q-Block, BERT and Block+Observe are outside; they are trace-checked only.
+What is proved: the receiver automata alone under a slice hypothesis (this section: server Block1 `srcvStep`; next
+section: client Block2 `crcvStep`), the sender automata (`xmitB2Step`, `xmitB1Step`, first message), and the composition
+of sender, lossy network and receiver for one transfer per direction WITHOUT that hypothesis
+(`never_wrong_body_block2_composed_partial`, `never_wrong_body_block1_composed_partial`); token substitution, timers,
+per-block mode on the server, Q-Block, BERT and Block+Observe are outside; they are trace-checked only.
 -/
 
 /-- For EVERY sequence of received Block1 datagrams — any order, any duplicates, any losses, any mix of block sizes not
@@ -171,6 +177,491 @@ example : (srcvStep 4 0 0 none 0 1 0 (List.replicate 16 7) none).2 = SrcvOut.con
 set_option maxRecDepth 8000 in
 /-- early size reduction (fix 0d17941): a 64-byte first block is recorded as 2 blocks of 32 -/
 example : ((srcvStep 4 0 1 none 0 1 2 (List.replicate 64 7) none).1.map (·.recv)) = some [(0, 1)] := by decide
+
+
+/-! ## Layer B, client side: the Block2 receive path (coap_handle_response_get_block), both delivery modes
+
+M = `crcvStep` (Model/BlockCrcv.lean), tied to the real function by the T2 op `crcv`.  The theorems below are about the
+receiver automaton alone, for EVERY sequence of responses (any order, duplicates, losses, any ETag / Content-Format
+on each of them, restarts after an ETag change included) each of which carries the server's slice for its NUM/SZX
+(`Genuine2`); `never_wrong_body_block2_composed_partial` further down removes that hypothesis for a libcoap server.
+Two things a foreign server could do are excluded by `Genuine2` because the C code has no defence against them
+(confirmed on the real function, see design/C09.md): changing SZX in the middle of a transfer WITHOUT changing the
+ETag (block numbers are recorded in mixed units: witness below; `Genuine2` demands the tracked size only of responses
+that pass the lg_crcv's ETag tests) and announcing different Size2 values on different blocks while sending blocks
+the client did not ask for (coap_block_build_body is called with THIS response's Size2 and can shrink the buffer).
+Neither can happen with a libcoap server (`server_block2_genuine`, `B2Inv.func`). -/
+
+/-- Block2, single-body AND per-block mode, every response sequence: a body handed to the response handler is exactly
+the server's body with its exact length (single-body); every block handed over is the server's slice at the offset
+announced (per-block, also for random access); a genuine block-wise response is never passed on as a plain one. -/
+theorem never_wrong_body_block2_partial (single : Bool) (cap : Nat) (junk : UInt8) (body : Bytes) (sz : Option Nat)
+    (rs : List Resp) (hsz : ∀ t, sz = some t → t ≤ body.length)
+    (hadm : Admissible2 single cap junk body sz none rs) :
+    ∀ o, o ∈ runCrcv single cap junk none rs →
+      (∀ d l, o = CrcvOut.body d l → single = true ∧ d.take l = body ∧ l = body.length) ∧
+      (∀ off p total nx, o = CrcvOut.block off p total nx →
+        single = false ∧ ∃ k szx, k < nBlocks body.length szx ∧ off = k * chunkSize szx ∧ p = slice body szx k) ∧
+      (∀ off p total, o = CrcvOut.last off p total →
+        single = false ∧ ∃ k szx, k < nBlocks body.length szx ∧ off = k * chunkSize szx ∧ p = slice body szx k) ∧
+      (∀ off p total, o = CrcvOut.randomAccess off p total →
+        ∃ k szx, k < nBlocks body.length szx ∧ off = k * chunkSize szx ∧ p = slice body szx k) ∧
+      (∀ p, o ≠ CrcvOut.plain p) :=
+  runCrcv_sound single cap junk body sz hsz rs none (by intro s hs; cases hs) hadm
+
+/-- At most once, and exact tiling, per lg_crcv lifetime (one step, any consistent state): the reassembled body is
+handed over together with the release of the lg_crcv; in per-block mode a block handed to the handler had not been
+recorded since the lg_crcv was (re-)initialised and is recorded afterwards (a duplicate is answered by `skip`), recorded
+blocks stay recorded, nothing else is ever recorded, and when the transfer completes (either mode) every block of the
+body has been recorded — so the offsets handed over in per-block mode tile the body, each exactly once. -/
+theorem at_most_once_block2_partial (single : Bool) (cap : Nat) (junk : UInt8) (body : Bytes) (sz : Option Nat)
+    (st : Option Crcv) (r : Resp) (num szx : Nat) (hsz : ∀ t, sz = some t → t ≤ body.length)
+    (hst : ∀ s, st = some s → s.initial = false → CrcvInv single cap body sz s)
+    (hg : Genuine2 body sz st r num szx) :
+    let res := crcvStep single cap junk st r
+    (∀ s', res.1 = some s' → s'.initial = false → CrcvInv single cap body sz s') ∧
+    (∀ d l, res.2 = CrcvOut.body d l → res.1 = none) ∧
+    (∀ off p total nx, res.2 = CrcvOut.block off p total nx → ¬ Covers (effRecv st) num) ∧
+    (∀ off p total, res.2 = CrcvOut.last off p total → ¬ Covers (effRecv st) num ∧ res.1 = none) ∧
+    (∀ s', res.1 = some s' → s'.initial = false → ∀ k, Covers s'.recv k ↔
+      (Covers (effRecv st) k ∨ (k = num ∧ (res.2 = CrcvOut.next (num + 1) szx ∨ res.2 = CrcvOut.wait ∨
+        ∃ off p total nx, res.2 = CrcvOut.block off p total nx)))) ∧
+    (res.2.isFinal = true → ∀ k, k < nBlocks body.length szx → k = num ∨ Covers (effRecv st) k) := by
+  intro res
+  have h := crcvStep_spec single cap junk body sz st r num szx res.1 res.2 hsz hst hg rfl
+  exact ⟨fun s' hs hi => h.inv s' hs hi, fun d l hb => (h.dBody d l hb).2.2.2,
+    fun off p total nx hb => (h.dBlock off p total nx hb).2.2.2.1,
+    fun off p total hb => ⟨(h.dLast off p total hb).2.2.2.1, (h.dLast off p total hb).2.2.2.2⟩,
+    h.grow, h.complete⟩
+
+/-- Per-block mode over a whole run, for EVERY sequence of genuine responses from a fresh client (any order, duplicates,
+losses, ETag restarts): with the ghost list `seen` of block numbers handed to the handler since the lg_crcv was last
+(re-)initialised (`seenAfter`), a block handed over is never in `seen` (at most once), and when the completing block
+is handed over every other block of the body is in `seen` — so the (offset, length) pairs the handler got in that
+lifetime are the slices of the body (`never_wrong_body_block2_partial`), pairwise different, and all of them: they
+tile the body exactly.  (`TilesOnce` is that statement written out along the run.) -/
+theorem per_block_tiles_once_partial (cap : Nat) (junk : UInt8) (body : Bytes) (sz : Option Nat) (rs : List Resp)
+    (hsz : ∀ t, sz = some t → t ≤ body.length) (hadm : Admissible2 false cap junk body sz none rs) :
+    TilesOnce cap junk body none [] rs :=
+  tilesOnce_run cap junk body sz hsz rs none [] (by intro s hs; cases hs)
+    (by intro k; simp [effRecv, covers_nil]) hadm
+
+set_option maxRecDepth 100000 in
+/-- the ghost list along a concrete run (40 bytes, 16-byte blocks, block 1 duplicated): [0], [1,0], [1,0], released -/
+example :
+    let body : Bytes := (List.range 40).map (fun i => UInt8.ofNat i)
+    let rsp (k m : Nat) : Resp := { blk := some (k, m, 0), payload := slice body 0 k }
+    let step (a : Option Crcv × List Nat) (r : Resp) : Option Crcv × List Nat :=
+      ((crcvStep false 4 0 a.1 r).1, seenAfter (crcvStep false 4 0 a.1 r).1 a.2 (numOf r) (crcvStep false 4 0 a.1 r).2)
+    ([rsp 0 1, rsp 1 1, rsp 1 1].foldl step (none, [])).2 = [1, 0] ∧
+    ([rsp 0 1, rsp 1 1, rsp 1 1, rsp 2 0].foldl step (none, [])) = (none, []) := by decide
+
+set_option maxRecDepth 100000 in
+/-- non-vacuity: a 100-byte body in 32-byte blocks, ETag on every block, block 1 duplicated: three requests, one delivery -/
+example :
+    let body : Bytes := (List.range 100).map (fun i => UInt8.ofNat i)
+    let rsp (k m : Nat) : Resp := { blk := some (k, m, 1), payload := slice body 1 k, size2 := some 100, etag := some [5] }
+    runCrcv true 4 0 none [rsp 0 1, rsp 1 1, rsp 1 1, rsp 2 1, rsp 3 0] =
+      [.next 1 1, .next 2 1, .skip, .next 3 1, .body body 100] := by decide
+
+set_option maxRecDepth 100000 in
+/-- … and per-block mode hands over the four slices, the last one from inside with the lg_crcv released -/
+example :
+    let body : Bytes := (List.range 100).map (fun i => UInt8.ofNat i)
+    let rsp (k m : Nat) : Resp := { blk := some (k, m, 1), payload := slice body 1 k }
+    (runCrcv false 4 0 none [rsp 0 1, rsp 1 1, rsp 2 1, rsp 3 0]).map (fun o => match o with
+      | .block off p _ _ => some (off, p.length) | .last off p _ => some (off, p.length) | _ => none) =
+      [some (0, 32), some (32, 32), some (64, 32), some (96, 4)] := by decide
+
+/-- the hypothesis `Genuine2` is satisfiable along a whole run -/
+example :
+    let body : Bytes := (List.range 40).map (fun i => UInt8.ofNat i)
+    Genuine2 body none none { blk := some (0, 1, 0), payload := slice body 0 0 } 0 0 := by
+  refine ⟨by decide, by decide, rfl, rfl, by intro s hs; cases hs⟩
+
+set_option maxRecDepth 100000 in
+/-- WITNESS (excluded by `Genuine2`, outside the property's quantifier: a libcoap server refuses a changed SZX with 4.00):
+a server that switches from 16-byte to 32-byte blocks in mid-transfer makes the client deliver a 55-byte "body" whose
+bytes 16..31 were never written (`junk` = 0xEE here); the real function does the same (`crcv 1 55 7 55 0.1.0.0.42,…`). -/
+example :
+    let body : Bytes := (List.range 55).map (fun i => UInt8.ofNat i)
+    let rsp (k m szx : Nat) : Resp := { blk := some (k, m, szx), payload := slice body szx k, size2 := some 55 }
+    ((runCrcv true 4 0xEE none [rsp 0 1 0, rsp 2 1 0, rsp 1 0 1]).getLast?.map fun o => match o with
+      | .body d l => (l, d.take l == body, (d.drop 16).take 2) | _ => (0, false, [])) = some (55, false, [0xEE, 0xEE]) := by
+  decide
+
+set_option maxRecDepth 100000 in
+/-- WITNESS (excluded by the constant Size2 of `Genuine2`; unreachable with a client that asks for one block at a
+time from a libcoap server): an unrequested block 5 without Size2 followed by block 0 announcing Size2 = 100 shrinks
+the buffer from 97 to 16 bytes (coap_block_build_body is called with this response's Size2, not the running total) -/
+example :
+    let body : Bytes := (List.range 100).map (fun i => UInt8.ofNat i)
+    ((crcvStep true 4 0 (crcvStep true 4 0 (some {}) { blk := some (5, 1, 0), payload := slice body 0 5 }).1
+      { blk := some (0, 1, 0), payload := slice body 0 0, size2 := some 100 }).1.map fun s => (s.recv, s.body.map (·.length))) =
+      some ([(0, 0), (5, 5)], some 16) := by decide
+
+
+/-! ## Layer B, sender side (lg_xmit) and the release callback
+
+M = `xmitB2Step` (coap_handle_request_send_block), `xmitB1Step` (coap_handle_response_send_block), `adlRel` (exit paths
+of coap_add_data_large_internal), `xlStep` (the session's lg_xmit list) in Model/BlockXmit.lean; T2 ops `xmit2`, `xmit1`. -/
+
+/-- Server, Block2: for EVERY lg_xmit and EVERY request (any NUM, any SZX, in any order, repeated, beyond the end): a
+block message the server builds carries exactly the body's slice for the NUM and SZX of the request, the SZX is the
+lg_xmit's (a changed size is refused with 4.00), the More bit is the one RFC 7959 prescribes, payload marker and
+payload fit the room the PDU has (otherwise 5.00) — and the lg_xmit keeps its body and block size whatever happens.
+This discharges the hypothesis `Genuine2` of the client's receive automaton for a libcoap server. -/
+theorem server_block2_genuine (x : LgXmit) (room num szx : Nat) :
+    (∀ st' n m s p, xmitB2Step (some x) room num szx = (st', B2Out.block n m s p) →
+      n = num ∧ s = szx ∧ s = x.blkSize ∧ n < nBlocks x.data.length s ∧ p = slice x.data s n ∧
+      m = more x.data.length s n ∧ 1 + p.length ≤ room ∧ p.length ≤ chunkSize s) ∧
+    (∃ x', (xmitB2Step (some x) room num szx).1 = some x' ∧ x'.data = x.data ∧ x'.blkSize = x.blkSize) := by
+  refine ⟨?_, xmitB2Step_state x room num szx⟩
+  intro st' n m s p h
+  obtain ⟨a, b, c, d, e, f, g, _⟩ := xmitB2Step_spec x room num szx st' n m s p h
+  refine ⟨a, b, c, d, e, f, g, ?_⟩
+  rw [e, slice_length]
+  exact Nat.min_le_left _ _
+
+
+/-- The FIRST block message of a body handed to `coap_add_data_large_request` (Block1), for ALL sizes: whenever the
+result is a multi-block transfer, the PDU carries Block1 (NUM 0, M 1, SZX = the lg_xmit's block size) — also after the
+second size reduction "chunk size change down" — and its payload is exactly slice 0 of the body at that size, which
+is a full block, and the More bit is the one RFC 7959 prescribes.  With `client_block1_slices` /
+`client_block1_genuine_partial` every block message of a libcoap Block1 sender is covered.  (The arithmetic is the
+lemma `adlBody_first`, which is stated for the response path's parameters as well.) -/
+theorem first_block_genuine (maxSize tokLen optBytes lastOpt : Nat) (blk : Option Nat) (maxBlk rtagLen : Nat)
+    (body : Bytes) (r : AdlRes) (hms : maxSize < 2 ^ 62) (hlen : body.length < 2 ^ 32)
+    (h : addDataLarge maxSize tokLen optBytes lastOpt blk maxBlk body.length rtagLen = some r) (hlg : r.lgXmit = true) :
+    r.blockVal = some (blockValue 0 (more body.length r.blkSize 0) r.blkSize) ∧
+    body.take r.payload = slice body r.blkSize 0 ∧ 0 < nBlocks body.length r.blkSize ∧ r.payload = chunkSize r.blkSize := by
+  unfold addDataLarge at h
+  dsimp only at h
+  have key : r.blockVal = some (blockValue 0 1 r.blkSize) ∧ r.payload = 2 ^ (r.blkSize + 4) ∧
+      2 ^ (r.blkSize + 4) < body.length := by
+    cases blk with
+    | none =>
+      simp only at h
+      obtain ⟨a, b, c, _⟩ := adlBody_first _ _ _ _ _ _ _ _ _ r hms hlen (by omega)
+        (by intro h16
+            exact adl_b2_le _ _ (by split <;> omega) h16 (by rw [adlAvail_eq]; omega)) h hlg
+      exact ⟨a, b, c⟩
+    | some s =>
+      simp only at h
+      have ho := blkOpt_le_43 (27 - lastOpt) (blockValue 0 0 s)
+      obtain ⟨a, b, c, _⟩ := adlBody_first _ _ _ _ _ _ _ _ _ r hms hlen (by omega)
+        (by intro h16
+            exact adl_b2_le _ _ (by split <;> split <;> omega) h16 (by rw [adlAvail_eq]; omega)) h hlg
+      exact ⟨a, b, c⟩
+  obtain ⟨a, b, c⟩ := key
+  have hc := chunk_pos r.blkSize
+  have hcs : 2 ^ (r.blkSize + 4) = chunkSize r.blkSize := rfl
+  rw [hcs] at b c
+  have hnb : 1 < nBlocks body.length r.blkSize := (lt_nBlocks_iff _ _ 1).mpr (by omega)
+  have hmore : more body.length r.blkSize 0 = 1 := by
+    unfold more; rw [if_pos (by omega)]
+  refine ⟨by rw [hmore]; exact a, ?_, by omega, b⟩
+  rw [b]
+  unfold slice
+  simp
+
+/-- non-vacuity: 5000 bytes into a 1152-byte PDU → 1024-byte blocks; into a 200-byte PDU → 128-byte blocks -/
+example : (addDataLarge 1152 4 2 11 none 0 5000 1).map (fun r => (r.lgXmit, r.blkSize, r.payload, r.blockVal)) =
+    some (true, 6, 1024, some (blockValue 0 1 6)) ∧
+    (addDataLarge 200 4 2 11 none 0 5000 1).map (fun r => (r.lgXmit, r.blkSize, r.payload, r.blockVal)) =
+    some (true, 3, 128, some (blockValue 0 1 3)) := by decide
+
+/-- Client, Block1: for EVERY lg_xmit and EVERY response matched to it (2.31 in order, duplicated, stale, renegotiating
+the size, or any other code): a block message the client builds carries exactly the body's slice for the NUM and SZX
+in its Block1 option, that SZX is the one of the response, and marker + payload fit the room the PDU has. -/
+theorem client_block1_slices (x : LgXmit) (room : Nat) (ok : Bool) (blk : Option (Nat × Nat)) (st' : Option LgXmit)
+    (n m s : Nat) (p : Bytes) (h : xmitB1Step x room ok blk = (st', B1Out.sendNext n m s p)) :
+    n < nBlocks x.data.length s ∧ p = slice x.data s n ∧ 1 + p.length ≤ room ∧ p.length ≤ chunkSize s ∧
+    ∃ num0, blk = some (num0, s) := by
+  obtain ⟨a, b, c, d, _⟩ := xmitB1Step_spec x room ok blk st' n m s p h
+  refine ⟨a, b, c, ?_, d⟩
+  rw [b, slice_length]
+  exact Nat.min_le_left _ _
+
+/-- … and, along EVERY sequence of responses none of which asks for a LARGER block size than the lg_xmit currently
+uses (RFC 7959 §2.5 allows a server only to reduce it; a libcoap server never increases it), the lg_xmit stays well
+formed (`XmitInv`: offset aligned to the block size), early size renegotiation included, and every block message has
+the right More bit and follows the block the response acknowledged: the hypothesis `Genuine` of the server's receive
+automaton (`never_wrong_body_partial`) is discharged for a libcoap client, except for its SZX clause.
+FULL statement (not provable, see the witness below): the same without `hblk`.  What is missing: when a response asks
+for a larger size the C code ignores the request for `lg_xmit->blk_size` / `offset` but keeps `block.szx` of the
+response for the option and for slicing the payload, so M bit and position are computed in two different units. -/
+theorem client_block1_genuine_partial (x : LgXmit) (room : Nat) (ok : Bool) (blk : Option (Nat × Nat))
+    (hinv : XmitInv x) (hlen : x.data.length < 2 ^ 32) (hblk : ∀ num szx, blk = some (num, szx) → szx ≤ x.blkSize) :
+    (∀ x', (xmitB1Step x room ok blk).1 = some x' → XmitInv x' ∧ x'.data = x.data ∧ x'.blkSize ≤ x.blkSize) ∧
+    (∀ st' n m s p, xmitB1Step x room ok blk = (st', B1Out.sendNext n m s p) →
+      p = slice x.data s n ∧ n < nBlocks x.data.length s ∧ m = more x.data.length s n ∧
+      ∃ x', st' = some x' ∧ x'.blkSize = s ∧ x'.lastBlock = some (n - 1) ∧ 1 ≤ n ∧ x'.offset = n * 2 ^ (s + 4)) := by
+  refine ⟨fun x' h => by
+    obtain ⟨a, b, c, _⟩ := xmitB1Step_inv x room ok blk x' hinv hlen hblk h
+    exact ⟨a, b, c⟩, ?_⟩
+  intro st' n m s p h
+  obtain ⟨a, b, _, ⟨num0, d⟩, e⟩ := xmitB1Step_spec x room ok blk st' n m s p h
+  obtain ⟨e1, x', e2, _, e4, e5, e6, e7⟩ := e hinv (hblk num0 s d)
+  exact ⟨b, a, e1, x', e2, e4, e5, e6, e7⟩
+
+set_option maxRecDepth 100000 in
+/-- non-vacuity + early size renegotiation: 400-byte body sent in 64-byte blocks; the server's 2.31 for block 0 asks
+for 32-byte blocks (and names block 1 of that size as received): the client goes on with block 2 of 32 bytes -/
+example :
+    let body : Bytes := (List.range 400).map (fun i => UInt8.ofNat (i % 251))
+    let x : LgXmit := { data := body, blkSize := 2 }
+    XmitInv x ∧ (xmitB1Step x 1000 true (some (0, 1))).2 = B1Out.sendNext 2 1 1 (slice body 1 2) ∧
+    ((xmitB1Step x 1000 true (some (0, 1))).1.map fun y => (y.blkSize, y.offset, y.lastBlock)) = some (1, 64, some 1) := by
+  decide
+
+set_option maxRecDepth 100000 in
+/-- WITNESS for the excluded case: lg_xmit at 64-byte blocks, block 0 sent; a 2.31 asking for 256-byte blocks makes the
+client send "block 1 of 256 bytes" (bytes 256..399, bytes 64..255 are skipped) with M = 1 although it is the last one -/
+example :
+    let body : Bytes := (List.range 400).map (fun i => UInt8.ofNat (i % 251))
+    (xmitB1Step { data := body, blkSize := 2 } 1000 true (some (0, 4))).2 = B1Out.sendNext 1 1 4 (slice body 4 1) ∧
+    more 400 4 1 = 0 := by decide
+
+set_option maxRecDepth 100000 in
+/-- non-vacuity for the server side: block 2 of a 100-byte body at 32-byte blocks; a changed size is refused -/
+example :
+    let body : Bytes := (List.range 100).map (fun i => UInt8.ofNat i)
+    (xmitB2Step (some { data := body, blkSize := 1 }) 1000 2 1).2 = B2Out.block 2 1 1 (slice body 1 2) ∧
+    (xmitB2Step (some { data := body, blkSize := 1 }) 1000 2 0).2 = B2Out.err400 ∧
+    (xmitB2Step (some { data := body, blkSize := 1 }) 1000 4 1).2 = B2Out.err500 ∧
+    (xmitB2Step (some { data := body, blkSize := 1 }) 20 2 1).2 = B2Out.err500 := by decide
+
+/-- The release callback, part 1 — coap_add_data_large_internal: for ALL inputs, on every exit path either the callback
+has been called exactly once and no lg_xmit holds it, or it has not been called and exactly one lg_xmit that holds it
+has been linked into the session — the latter exactly when the result is a multi-block transfer. -/
+theorem adl_release_once (maxSize tokLen optBytes lastOpt : Nat) (blk : Option Nat) (maxBlk length rtagLen : Nat) :
+    let r := adlRel maxSize tokLen optBytes lastOpt blk maxBlk length rtagLen
+    r.1 + (if r.2 then 1 else 0) = 1 ∧
+    (r.2 = true ↔ ∃ a, addDataLarge maxSize tokLen optBytes lastOpt blk maxBlk length rtagLen = some a ∧ a.lgXmit = true) :=
+  adlRel_spec maxSize tokLen optBytes lastOpt blk maxBlk length rtagLen
+
+/-- The release callback, part 2 — the session's lg_xmit list: after ANY sequence of creations, deletions (timeout,
+transfer finished, failed, replaced — each through LL_DELETE + coap_block_delete_lg_xmit on a list member) and session
+frees, no callback has run twice and none has run for an lg_xmit that is still linked; every lg_xmit ever created is
+still linked or has had its callback run; once the session is freed every one of them has had it run exactly once. -/
+theorem release_exactly_once (evs : List XlEvent) :
+    let s := evs.foldl xlStep ([], [])
+    (s.1 ++ s.2).Nodup ∧
+    (∀ id, XlEvent.create id ∈ evs → id ∈ s.1 ∨ id ∈ s.2) ∧
+    (let f := (evs ++ [XlEvent.sessionFree]).foldl xlStep ([], [])
+     f.1 = [] ∧ f.2.Nodup ∧ ∀ id, XlEvent.create id ∈ evs → id ∈ f.2) := by
+  intro s
+  have hnil : XlInv ([], []) := by unfold XlInv; exact List.nodup_nil
+  refine ⟨xlFold_inv evs _ hnil, fun id h => xlFold_created evs _ id h, ?_⟩
+  intro f
+  have hf : f = xlStep s XlEvent.sessionFree := by
+    show (evs ++ [XlEvent.sessionFree]).foldl xlStep ([], []) = _
+    rw [List.foldl_append]; rfl
+  have hs := xlFold_inv evs _ hnil
+  rw [hf]
+  refine ⟨rfl, hs, ?_⟩
+  intro id h
+  rcases xlFold_created evs ([], []) id h with h | h
+  · exact List.mem_append_left _ h
+  · exact List.mem_append_right _ h
+
+example : [XlEvent.create 1, .create 2, .delete 1, .delete 1, .create 3, .sessionFree].foldl xlStep ([], []) =
+    ([], [3, 2, 1]) := by decide
+example : adlRel 1152 4 2 11 none 0 5000 1 = (0, true) ∧ adlRel 1152 4 2 11 none 0 50 1 = (1, false) ∧
+    adlRel 60 4 2 11 none 0 5000 1 = (1, false) := by decide
+
+
+/-! ## two concurrent Block1 transfers on one session, told apart by Request-Tag ("locate the lg_srcv")
+
+M = `srcvMultiStep` (Model/BlockRtag.lean), tied to the real coap_handle_request_put_block by the T2 op `srcv3`. -/
+
+/-- The key an lg_srcv is filed under is the Request-Tag's PRESENCE and VALUE (an EMPTY tag is a tag): for every list
+of lg_srcvs and every request, (1) the element the request is processed against is the first one filed under exactly
+the request's key; (2) if there is none, the element created carries exactly that key, so that the next block with the
+same Request-Tag (absent / EMPTY / any value) finds it; (3) elements filed under another key survive the step
+unchanged and nothing with another key is added — the blocks of one transfer never reach the other's lg_srcv. -/
+theorem request_tag_tells_transfers_apart (cap : Nat) (junk : UInt8) (maxBlk : Nat) (lgs : List LgSrcv)
+    (o : Option Bytes) (num m szx : Nat) (payload : Bytes) (size1 : Option Nat) :
+    (∀ i, srcvFind lgs o = some i → ∃ lg, lgs[i]? = some lg ∧ lg.key = o ∧
+      ∀ j lg', j < i → lgs[j]? = some lg' → lg'.key ≠ o) ∧
+    (srcvFind lgs o = none → (∀ lg, lg ∈ lgs → lg.key ≠ o) ∧
+      ∀ s' out, srcvStep cap junk maxBlk none num m szx payload size1 = (some s', out) →
+        ∃ new, (srcvMultiStep cap junk maxBlk lgs o num m szx payload size1).1 = new :: lgs ∧ new.key = o ∧
+          new.s = s' ∧ srcvFind (new :: lgs) o = some 0) ∧
+    (∀ lg, lg ∈ lgs → lg.key ≠ o → lg ∈ (srcvMultiStep cap junk maxBlk lgs o num m szx payload size1).1) ∧
+    (∀ lg, lg ∈ (srcvMultiStep cap junk maxBlk lgs o num m szx payload size1).1 → lg ∈ lgs ∨ lg.key = o) := by
+  refine ⟨fun i h => srcvFind_some lgs o i h, ?_, (srcvMultiStep_keys cap junk maxBlk lgs o num m szx payload size1).1,
+    (srcvMultiStep_keys cap junk maxBlk lgs o num m szx payload size1).2⟩
+  intro hnone
+  refine ⟨srcvFind_none lgs o hnone, ?_⟩
+  intro s' out hs
+  cases o with
+  | none =>
+    refine ⟨⟨false, [], s'⟩, ?_, rfl, rfl, ?_⟩
+    · unfold srcvMultiStep
+      rw [hnone]
+      simp only
+      rw [hs]
+      rfl
+    · simp [srcvFind, rtagMatch]
+  | some t =>
+    refine ⟨⟨true, t, s'⟩, ?_, rfl, rfl, ?_⟩
+    · unfold srcvMultiStep
+      rw [hnone]
+      simp only
+      rw [hs]
+      rfl
+    · simp [srcvFind, rtagMatch]
+
+/-- an EMPTY Request-Tag is a key of its own: it matches neither an lg_srcv created without the option nor one with a
+non-empty tag, and it does match the one created with an empty tag (the defect seeded as "record the tag only if its
+length is non-zero" makes the last line false: every block then opens a new lg_srcv) -/
+example : rtagMatch (some []) { rtagSet := false, rtag := [], s := { recv := [], totalLen := 0, body := none, szx := 0 } } = false ∧
+    rtagMatch (some []) { rtagSet := true, rtag := [1], s := { recv := [], totalLen := 0, body := none, szx := 0 } } = false ∧
+    rtagMatch none { rtagSet := true, rtag := [], s := { recv := [], totalLen := 0, body := none, szx := 0 } } = false ∧
+    rtagMatch (some []) { rtagSet := true, rtag := [], s := { recv := [], totalLen := 0, body := none, szx := 0 } } = true := by
+  decide
+
+set_option maxRecDepth 100000 in
+/-- two interleaved 40-byte transfers to one resource, one with an EMPTY Request-Tag and one without the option: two
+lg_srcvs, each body delivered once -/
+example :
+    let b0 : Bytes := (List.range 40).map (fun i => UInt8.ofNat i)
+    let b1 : Bytes := (List.range 40).map (fun i => UInt8.ofNat (100 + i))
+    let st (lgs : List LgSrcv) (o : Option Bytes) (b : Bytes) (k m : Nat) :=
+      srcvMultiStep 4 0 0 lgs o k m 0 (slice b 0 k) none
+    let s1 := st [] (some []) b0 0 1
+    let s2 := st s1.1 none b1 0 1
+    let s3 := st s2.1 (some []) b0 1 1
+    let s4 := st s3.1 none b1 1 1
+    let s5 := st s4.1 (some []) b0 2 0
+    let s6 := st s5.1 none b1 2 0
+    s2.1.length = 2 ∧ s5.2 = SrcvOut.deliver b0 40 ∧ s6.2 = SrcvOut.deliver b1 40 ∧ s6.1 = [] := by decide
+
+
+/-! ## Layer B, composed: libcoap sender ∘ lossy network ∘ libcoap receiver, Block2 and Block1 (Model/BlockNet.lean)
+
+FULL statement (not proved): `never_wrong_body` / `at_most_once_per_transfer` for the composed system including
+everything the real endpoints do.  What is missing in the two theorems below: responses the APPLICATION builds when a
+follow-up Block2 request finds no lg_xmit, and bodies that fit one message (the models generate no message there); the
+computation of `adlBody`'s parameters on the response path (hypothesis `B2ParOK`, satisfied on the request path:
+`first_block_genuine`); per-block mode on the server; several transfers at once; retransmission timers, message ids and
+tokens (abstracted: the schedule picks any datagram ever sent, any number of times, in any order). -/
+
+/-- For EVERY schedule — any loss, duplication, delay, reordering of request and response datagrams, repeated GETs,
+time-outs of the server's lg_xmit and of the client's lg_crcv at any moment, an lg_crcv set up at send time (NON
+request) or only by the first response (CON), any number of lg_xmit incarnations (each
+with a fresh ETag, possibly with a different block size) — without ANY hypothesis on the datagrams: whatever the
+client's response handler is given is the server's body (single-body mode: exactly, with its exact length) or an
+exact slice of it at the announced offset (per-block mode), and a block response is never passed on as a plain one. -/
+theorem never_wrong_body_block2_composed_partial (P : B2Par) (hP : B2ParOK P) (evs : List B2Event) :
+    ∀ o, o ∈ (evs.foldl (b2Step P) {}).outs →
+      (∀ d l, o = CrcvOut.body d l → P.single = true ∧ d.take l = P.body ∧ l = P.body.length) ∧
+      (∀ off p total nx, o = CrcvOut.block off p total nx →
+        P.single = false ∧ ∃ k szx, k < nBlocks P.body.length szx ∧ off = k * chunkSize szx ∧ p = slice P.body szx k) ∧
+      (∀ off p total, o = CrcvOut.last off p total →
+        P.single = false ∧ ∃ k szx, k < nBlocks P.body.length szx ∧ off = k * chunkSize szx ∧ p = slice P.body szx k) ∧
+      (∀ off p total, o = CrcvOut.randomAccess off p total →
+        ∃ k szx, k < nBlocks P.body.length szx ∧ off = k * chunkSize szx ∧ p = slice P.body szx k) ∧
+      (∀ p, o ≠ CrcvOut.plain p) :=
+  (b2Run_inv P hP evs {} (b2_init_inv P)).outs
+
+/-- The hypothesis `B2ParOK` holds for what the C computes: with `cfg` = `rspCfg` (the arguments
+coap_add_data_large_response → coap_write_block_b_opt → coap_add_data_large_internal hand to `adlBody` for a GET carrying
+Block2; `addDataLargeRsp` = `adlBody` on `rspCfg` is tied to the real function by the T2 op `xmit2` over PDU sizes
+20..1500), any PDU size below 2^62, a body below 2^32 bytes and ETags that differ between lg_xmits. -/
+theorem response_path_params_ok (maxSize tokLen optBytes lastOpt maxBlk etagLen : Nat) (body : Bytes)
+    (etagOf : Nat → Bytes) (fmt room : Nat) (single : Bool) (cap : Nat) (junk : UInt8)
+    (hms : maxSize < 2 ^ 62) (hlen : body.length < 2 ^ 32) (hinj : ∀ k1 k2, etagOf k1 = etagOf k2 → k1 = k2) :
+    B2ParOK { body := body, cfg := rspCfg maxSize tokLen optBytes lastOpt maxBlk body.length etagLen, etagOf := etagOf,
+              fmt := fmt, room := room, single := single, cap := cap, junk := junk } :=
+  { len := hlen
+    ms := fun szx c hc => (rspCfg_ok maxSize tokLen optBytes lastOpt maxBlk body.length etagLen hms szx c hc).1
+    tok := fun szx c hc => (rspCfg_ok maxSize tokLen optBytes lastOpt maxBlk body.length etagLen hms szx c hc).2.1
+    b2 := fun szx c hc => (rspCfg_ok maxSize tokLen optBytes lastOpt maxBlk body.length etagLen hms szx c hc).2.2.1
+    b26 := fun szx c hc => (rspCfg_ok maxSize tokLen optBytes lastOpt maxBlk body.length etagLen hms szx c hc).2.2.2
+    inj := hinj }
+
+set_option maxRecDepth 100000 in
+/-- non-vacuity: a 96-byte response PDU makes the server itself reduce 1024-byte blocks to 32 bytes -/
+example : (rspCfg 96 4 2 12 0 1000 1 6).map (fun c => (c.b2, c.blk, c.tokOpts0)) = some (1, some 2, 8) ∧
+    (addDataLargeRsp 96 4 2 12 6 0 1000 1).map (fun r => (r.lgXmit, r.blkSize, r.payload)) = some (true, 1, 32) := by decide
+
+/-- a concrete system for the examples: 40-byte body, the server settles on 16-byte blocks -/
+def exPar (single : Bool) : B2Par :=
+  { body := (List.range 40).map (fun i => UInt8.ofNat i),
+    cfg := fun _ => some { maxSize := 1152, tokLen := 4, base := 6, d := 11, tokOpts0 := 8, b2 := 0, extra := 6, blk := some 0 },
+    etagOf := fun k => List.replicate k 1, fmt := 42, room := 1000, single := single, cap := 4, junk := 0 }
+
+/-- the hypothesis `B2ParOK` is satisfiable -/
+example (single : Bool) : B2ParOK (exPar single) :=
+  { len := (by show ((List.range 40).map (fun i => UInt8.ofNat i)).length < 2 ^ 32; decide),
+    ms := fun _ c hc => (by cases hc; show 1152 < 2 ^ 62; decide),
+    tok := fun _ c hc => (by cases hc; show 8 ≤ 6 + 43; decide),
+    b2 := fun _ c hc _ => (by cases hc; show ((2 ^ (0 + 4) : Nat) : Int) ≤ adlAvail 1152 8 4; decide),
+    b26 := fun _ c hc => (by cases hc; show 0 ≤ 6; decide),
+    inj := (by
+      intro a b h
+      have h' : List.replicate a (1 : UInt8) = List.replicate b 1 := h
+      have := congrArg List.length h'
+      simpa using this) }
+
+/-- a schedule with a duplicated response and a retransmitted request: three requests, one delivery (`+kernel`: the
+kernel evaluates the decision procedure directly; no axioms involved) -/
+example :
+    let evs : List B2Event := [.appGet 0, .reqArrives 0, .rspArrives 0, .reqArrives 1, .rspArrives 1, .rspArrives 1,
+      .reqArrives 1, .reqArrives 2, .rspArrives 3]
+    let s := evs.foldl (b2Step (exPar true)) {}
+    s.outs = [.next 1 0, .next 2 0, .skip, .body (exPar true).body 40] ∧ s.cli = none ∧ s.rsps.length = 4 := by
+  decide +kernel
+
+/-- a duplicated FIRST request creates a second lg_xmit with a new ETag: the client restarts and still gets the body -/
+example :
+    let evs : List B2Event := [.appGet 0, .reqArrives 0, .reqArrives 0, .rspArrives 0, .rspArrives 1, .reqArrives 2,
+      .rspArrives 2, .reqArrives 3, .rspArrives 3, .reqArrives 4, .rspArrives 4]
+    let s := evs.foldl (b2Step (exPar true)) {}
+    s.outs = [.next 1 0, .restart 0, .next 1 0, .next 2 0, .body (exPar true).body 40] ∧ s.srvEtag = 3 := by
+  decide +kernel
+
+/-- The Block1 direction, composed (`b1Step`, Model/BlockNet.lean): libcoap client (`coap_add_data_large_request` for the
+first message, `coap_handle_response_send_block` for the others, early size renegotiation included) ∘ network ∘ libcoap
+server in single-body mode (`coap_handle_request_put_block` for one lg_srcv; 2.31 with the SZX of the request or the
+server's maximum for block 0; empty ACK; the application's answer; 4.08 / 4.00).  For EVERY schedule — any loss,
+duplication, delay, reordering of requests and responses, repeated PUTs, time-outs of the client's lg_xmit and of the
+server's lg_srcv at any moment, any server block-size limit — and with NO hypothesis on the datagrams: whatever the
+server hands to its application is exactly the client's body with its exact length.
+Invariant `B1Inv`: every request in flight is the slice for its NUM/SZX with the right More bit and Size1, in one of two
+sizes (the client's initial one — only for block 0 — or the one the transfer settles on); every 2.31 names the settled
+size; the lg_xmit is well formed (`XmitInv`) in one of the two sizes; the lg_srcv is consistent with the body (`SrcvInv`)
+and tracks it in the settled size.  So the hypotheses of `never_wrong_body_partial` (slice, SZX not below the tracked
+one) and of `client_block1_genuine_partial` (no larger size asked for) are discharged.
+Not in the model (see the section header): bodies that fit one message, two lg_srcvs at once (`request_tag_…`), per-block
+mode on the server, timers / message ids / tokens; body < 2^31 bytes. -/
+theorem never_wrong_body_block1_composed_partial (P : B1Par) (hP : B1ParOK P) (evs : List B1Event) :
+    ∀ o, o ∈ (evs.foldl (b1Step P) {}).outs → ∀ b l, o = SrcvOut.deliver b l → b = P.body ∧ l = P.body.length :=
+  (b1Run_inv P hP evs {} (b1_init_inv P)).outs
+
+/-- a concrete Block1 system: 200-byte body, the client would use 1024-byte blocks but asks for 64, the server allows 32 -/
+def exPar1 : B1Par :=
+  { body := (List.range 200).map (fun i => UInt8.ofNat i), maxSize := 1152, tokLen := 4, optBytes := 2, lastOpt := 11,
+    blk := some 2, maxBlkC := 0, rtagLen := 1, maxBlk := 1, room := 1000, cap := 4, junk := 0 }
+
+example : B1ParOK exPar1 :=
+  { len := (by show ((List.range 200).map (fun i => UInt8.ofNat i)).length < 2 ^ 31; simp),
+    ms := (by show 1152 < 2 ^ 62; decide) }
+
+/-- early size renegotiation over the composed system, with a duplicated 2.31 and a duplicated block: the first block
+(64 bytes) is recorded as two blocks of 32, the client goes on with block 2 of 32 bytes, one delivery at the end -/
+example :
+    let evs : List B1Event := [.appPut, .reqArrives 0, .rspArrives 0, .rspArrives 0, .reqArrives 1, .reqArrives 1,
+      .rspArrives 1, .reqArrives 2, .rspArrives 3, .reqArrives 3, .rspArrives 4, .reqArrives 4, .rspArrives 5, .reqArrives 5]
+    let s := evs.foldl (b1Step exPar1) {}
+    s.reqs.map (fun d => (d.num, d.m, d.szx, d.payload.length)) =
+      [(0, 1, 2, 64), (2, 1, 1, 32), (3, 1, 1, 32), (4, 1, 1, 32), (5, 1, 1, 32), (6, 0, 1, 8)] ∧
+    s.outs.getLast? = some (SrcvOut.deliver exPar1.body 200) ∧ s.srv = none ∧
+    (s.outs.filter (fun o => match o with | .deliver _ _ => true | _ => false)).length = 1 := by
+  decide +kernel
 
 /-! non-vacuity: concrete instances of the hypotheses -/
 example : setupBlockB 64 6 3 6 5000 = some { num := 96, m := 1, szx := 1, aszx := 1, chunk := 32 } := by decide
